@@ -99,13 +99,12 @@ Proof.
     + intros i Hi Ha. specialize (F2 i ltac:(apply in_seq; lia)). rewrite Ha in F2. exact F2.
 Qed.
 
-Lemma chain_run_law : forall hh0 objs ts T insts lss H C0 i,
+Lemma tokb_tok : forall hh0 objs ts T insts lss H C0,
   chain hh0 -> GI hh0 objs T insts lss H C0 -> tokb hh0 objs (T, insts) H ts = true ->
-  law_hist_ta objs H i lss (run_t hh0 objs (T, insts) ts) = [].
+  tok hh0 objs (T, insts) H ts.
 Proof.
-  intros hh0 objs ts T insts lss H C0 i Hch G Hok.
-  apply (global_run_law hh0 objs ts T insts lss H C0 i G).
-  revert T insts lss H C0 G Hok. induction ts as [|t r IH]; intros T insts lss H C0 G Hok; [exact I|].
+  intros hh0 objs ts T insts lss H C0 Hch. revert T insts lss H C0.
+  induction ts as [|t r IH]; intros T insts lss H C0 G Hok; [exact I|].
   cbn [tokb fst snd] in Hok. apply andb_true_iff in Hok. destruct Hok as [Hc Hr].
   pose proof (tcleanb_tclean hh0 objs T insts lss H C0 t Hch G Hc) as Hcl.
   cbn [tok fst snd]. split; [exact Hcl|].
@@ -117,6 +116,15 @@ Proof.
   - destruct (gi_cls_step hh0 objs T insts lss H C0 k n p G Hcl) as [C0' G'].
     destruct (step_t hh0 objs (T, insts) (TClass k n p)) as [[T' insts'] ob] eqn:E. cbn [fst snd next_Ht] in *.
     apply (IH T' insts' lss _ C0' G' Hr).
+Qed.
+
+Lemma chain_run_law : forall hh0 objs ts T insts lss H C0 i,
+  chain hh0 -> GI hh0 objs T insts lss H C0 -> tokb hh0 objs (T, insts) H ts = true ->
+  law_hist_ta objs H i lss (run_t hh0 objs (T, insts) ts) = [].
+Proof.
+  intros hh0 objs ts T insts lss H C0 i Hch G Hok.
+  apply (global_run_law hh0 objs ts T insts lss H C0 i G).
+  apply (tokb_tok hh0 objs ts T insts lss H C0 Hch G Hok).
 Qed.
 
 Lemma GI_init : forall hh objs,
@@ -159,6 +167,21 @@ Lemma chain_law : forall hh objs ts i,
 Proof.
   intros hh objs ts i Hch HP Ho Hok.
   apply (chain_run_law hh objs ts _ _ _ hh (fun c => fst (tabs_nth (tables hh) c)) i (chainb_chain hh Hch)); [|exact Hok].
+  apply GI_init.
+  - intros c Hc. rewrite forallb_forall in HP. apply HP. unfold tabs_nth. apply nth_In. rewrite tables_length. exact Hc.
+  - intros j Hj. rewrite forallb_forall in Ho. apply Nat.ltb_lt. apply Ho. apply nth_In. exact Hj.
+Qed.
+
+(* the stepwise hypothesis of the general theorem follows from the boolean one *)
+Lemma tok_of_tokb_fresh : forall hh objs ts,
+  chainb hh = true ->
+  forallb plain_t (tables hh) = true ->
+  forallb (fun c => Nat.ltb c (length hh)) objs = true ->
+  tokb hh objs (tables hh, map (fun _ => ([], [])) objs) hh ts = true ->
+  tok hh objs (tables hh, map (fun _ => ([], [])) objs) hh ts.
+Proof.
+  intros hh objs ts Hch HP Ho Hok.
+  apply (tokb_tok hh objs ts _ _ (map (fun _ => l_init) objs) hh (fun c => fst (tabs_nth (tables hh) c)) (chainb_chain hh Hch)); [|exact Hok].
   apply GI_init.
   - intros c Hc. rewrite forallb_forall in HP. apply HP. unfold tabs_nth. apply nth_In. rewrite tables_length. exact Hc.
   - intros j Hj. rewrite forallb_forall in Ho. apply Nat.ltb_lt. apply Ho. apply nth_In. exact Hj.
